@@ -33,6 +33,10 @@ def gen_cases(tier, seed):
         for n in (17, 20, 23, 31, 32, 37, 40, 50, 100):      # beyond the exhaustive part: larger datasets on a coarser grid
             cases.append({"kind": "split", "n": n, "fracs": [0.0, 0.05, 0.2, 0.25, 0.45, 0.5, 0.7, 0.85, 0.95, 1.0], "seeds": [seed]})
             cases.append({"kind": "loader", "n": n})
+    # sizes around the limits of the small integer types (index arithmetic)
+    for n in (255, 256, 257) + ((32767, 32768, 65536, 65537) if tier == "thorough" else ()):
+        cases.append({"kind": "split", "n": n, "fracs": [0.1, 0.5], "seeds": [seed]})
+        cases.append({"kind": "loader", "n": n, "bs_list": [1, 2, 16, 255, 256, 257] if n < 1000 else [255, 4096, 32768, n]})
     cases.append({"kind": "onehot", "seed": seed, "count": 60 if tier == "quick" else 600})
     return cases
 
@@ -213,7 +217,7 @@ def run_case(ns, ctx, case):
         counters["split_calls"] = evals
     elif case["kind"] == "loader":
         n = case["n"]
-        for bs in range(1, n + 4):
+        for bs in (case.get("bs_list") or range(1, n + 4)):
             for mode in ("none", "tagging") + (("tagging-sized",) if bs % 3 == 1 else ()):
                 viol += check_loader(ns, n, bs, mode)
                 evals += 1
